@@ -138,6 +138,23 @@ func c20Check(k c20Case, bin, dir string) (sig, what string) {
 		os.Chmod(filepath.Join(dir, f.name), os.FileMode(k.Perm))
 		args = append(args, f.name)
 	}
+	// a third file compressed by a separate invocation with another block size is uncompressed
+	// together with the others (one Reader reused across files of different block sizes)
+	var other []byte
+	if k.Second >= 0 {
+		other = inputSpec{70000, "text"}.build()
+		if err := os.WriteFile(filepath.Join(dir, "c.dat"), other, os.FileMode(k.Perm)); err != nil {
+			return "", ""
+		}
+		osz := "64K"
+		if k.Size == "64K" {
+			osz = "1M"
+		}
+		if _, rc, _, _ := runCmd(dir, nil, bin, "compress", "-size", osz, "c.dat"); rc != 0 {
+			return "lz4c compress exits non-zero", "third file"
+		}
+		os.Remove(filepath.Join(dir, "c.dat"))
+	}
 	_, rc, to, err := runCmd(dir, nil, bin, args...)
 	if err != nil {
 		return "", ""
@@ -159,6 +176,13 @@ func c20Check(k c20Case, bin, dir string) (sig, what string) {
 		}
 		os.Remove(filepath.Join(dir, f.name))
 		zargs = append(zargs, f.name+".lz4")
+	}
+	if other != nil {
+		zargs = append(zargs, "c.dat.lz4")
+		files = append(files, struct {
+			name string
+			data []byte
+		}{"c.dat", other})
 	}
 	_, rc, to, _ = runCmd(dir, nil, bin, append([]string{"uncompress"}, zargs...)...)
 	if to {
